@@ -1753,3 +1753,99 @@ def deferresult(F, R):
         R.ob('C05.defer-result', ok, {'action': Facts.short(act, 70), 'defers': d, 'returns': sorted(rets)})
         if not ok:
             R.find('C05.defer-result', f, 'deferring' if d else 'plain', 'action %s %s the event (front-end declaration) but the transition reports %s: %s' % (Facts.short(act, 70), 'defers' if d else 'does not defer', sorted(rets), 'the deferred event is re-offered at once, again and again, while the deferring state is active' if d else 'an event that was consumed is treated as still pending'), instance=Facts.short(act, 160))
+
+def _last_targs(s, name):
+    """template arguments of the LAST occurrence of `name<` in a type string"""
+    i = s.rfind(name + '<')
+    if i < 0: return None
+    h, a, _r = parse_type(s[i:])
+    return a
+
+@rule('fctinstall')
+def fctinstall(F, R):
+    """C01.plan (backmp11 favor_compile_time, how the run-time dispatch tables are filled from the back-end transition table): the
+    table constructor installs one cell per row of the back-end transition table, in table order, each into the chain of the state
+    the cell itself names (`tables[c.state_id].add(c)`).  The constructor exists in two forms selected by compiler (a range-for over
+    a value array; mp_for_each with a generic lambda for g++): both are analysed, the second one through the G corpus.
+    Clauses: [install-index] index and argument of every install site agree; [install-cells] the cell constants instantiated for a
+    machine point to exactly the rows of its back-end table (multiset, through the template arguments of the cell function);
+    [install-order] the list the constructor walks has one element per row with the rows' triggers in table order."""
+    tables = {}
+    for r in F.records:
+        if r['n'] == 'transition_table_impl' and r['loc'].startswith('boost/msm/backmp11/') and 'transition_table' in r['tds']:
+            a = F.targs(r.get('a')) or []
+            if a: tables[strip_cvref(str(a[0]))] = [strip_cvref(x) for x in (type_list(F.strs[r['tds']['transition_table']]) or [])]
+    def sm_of(t):
+        j = t.find('::init_cell_constant<')
+        a = _last_targs(t[:j] if j >= 0 else t, 'dispatch_table')
+        return strip_cvref(a[0]) if a else None
+    def table_of(sm):
+        if sm in tables: return tables[sm]
+        rec = F.rec_by_type(sm) if sm else None
+        for k_, v_ in tables.items():
+            if rec and any(strip_cvref(F.strs[b['t']]) == k_ for b in rec['bases']): return v_
+        return None
+    def trigger_of(tr):
+        rec = F.rec_by_type(tr)
+        return strip_cvref(F.strs[rec['tds']['transition_event']]) if rec and 'transition_event' in rec['tds'] else None
+    # the cell constants per machine, with the transition each one executes
+    cells = {}
+    for r in F.records:
+        if r['n'] != 'init_cell_constant' or not r['loc'].startswith('boost/msm/backmp11/favor_compile_time.hpp'): continue
+        a = [str(x) for x in (F.targs(r.get('a')) or [])]
+        c = _last_targs(a[2], 'convert_event_and_execute') if len(a) > 2 else None
+        sm = sm_of(F.strs[r['t']])
+        if sm and c and len(c) > 1: cells.setdefault(sm, []).append(strip_cvref(c[1]))
+    walked = {}
+    for f in F.funcs:
+        if not f.file.endswith('backmp11/favor_compile_time.hpp') or not f.blocks: continue
+        own = f.cls == 'dispatch_table' and 'ctor' in (f.d.get('sp') or '')
+        outer = [c.get('k') for c in f.d.get('ctx', []) if c.get('f') == 'dispatch_table']
+        if not own and not outer: continue
+        key = f.k if own else outer[-1]
+        for i, n in f.calls():
+            if n.get('n') != 'add_transition_cell' or not n.get('obj') or not n.get('args'): continue
+            if f.base_member(n['obj']) != 'm_state_dispatch_tables': continue
+            R.seen(f); R.anchor('fct-install-site')
+            obj = f.expr(n['obj']).replace(' ', '').replace('this->', ''); arg = f.expr(n['args'][0]).replace(' ', '')
+            ok = obj == 'm_state_dispatch_tables[%s.state_id]' % arg
+            R.ob('C01.plan', ok, {'func': f.q, 'site': f.expr(i)[:120]})
+            if not ok: R.find('C01.plan', f, 'install-index', 'the cell %s is installed through %s: it must go into the chain of the state the cell itself names (tables[c.state_id])' % (arg, obj), where=f.at(i))
+            d = walked.setdefault(key, {'ordered': None, 'set': []})
+            if own:
+                for x in f.nodes:
+                    if x and x['k'] == 'decl':
+                        for v in x['vars']:
+                            t = F.strs[v['t']]
+                            if 'value_array<' in t and '::init_cell_constant<' in t:
+                                h, aa, _r = parse_type(t[t.find('value_array<'):])
+                                lst = type_list(aa[0]) if aa else None
+                                d['ordered'] = [(_last_targs(e, 'init_cell_constant') or [None])[0] for e in (lst or [])]
+            else:
+                pt = f.param_types()
+                if pt: d['set'].append((_last_targs(pt[0], 'init_cell_constant') or [None])[0])
+    for key, d in walked.items():
+        g = F.bykey.get(key)
+        if g is None: continue
+        a = g.cls_args('dispatch_table') or []
+        sm = strip_cvref(str(a[0])) if a else None
+        tl = table_of(sm)
+        if tl is None: continue
+        trig = [trigger_of(t) for t in tl]
+        if any(t is None for t in trig): continue
+        R.anchor('fct-install-table')
+        got = cells.get(sm, [])
+        ok = sorted(got) == sorted(tl)
+        R.ob('C01.plan', ok, {'machine': Facts.short(sm or '', 60), 'cell_constants': len(got), 'table_rows': len(tl)})
+        if not ok:
+            missing = [Facts.short(x, 70) for x in tl if x not in got][:3]; extra = [Facts.short(x, 70) for x in got if x not in tl][:3]
+            R.find('C01.plan', g, 'install-cells', 'the cell constants generated for %s execute %d transitions, its back-end transition table has %d rows (missing %s, extra %s)' % (Facts.short(sm or '', 50), len(got), len(tl), missing, extra))
+        if d['ordered'] is not None:
+            w = [strip_cvref(x) if x else x for x in d['ordered']]
+            ok2 = w == trig; how = 'range-for over the value array: triggers in order'
+        else:
+            w = sorted(strip_cvref(x) if x else '' for x in d['set'])
+            ok2 = w == sorted(trig); how = 'g++ form: one lambda instantiation per cell (multiset of triggers)'
+        R.ob('C01.plan', ok2, {'machine': Facts.short(sm or '', 60), 'walked': len(w), 'compared': how})
+        if not ok2:
+            R.find('C01.plan', g, 'install-order', 'the constructor of the favor_compile_time tables of %s walks %d cells with triggers %s, the back-end table has %d rows with triggers %s (%s): a row is skipped, installed twice or in another priority order' % (Facts.short(sm or '', 50), len(w), [Facts.short(x or '?', 24) for x in w][:8], len(trig), [Facts.short(x, 24) for x in (trig if d['ordered'] is not None else sorted(trig))][:8], how))
